@@ -75,6 +75,9 @@ feature! {
 
     mod sharded;
     mod stack;
+    #[cfg(tracing_verif)]
+    #[doc(hidden)]
+    pub use stack::__verif as __verif_stack;
 
     pub use sharded::Data;
     pub use sharded::Registry;
